@@ -573,6 +573,12 @@ pub fn run<P: Prop>(prop: &P, opts: &Opts) -> i32 {
         let dir = opts.root.join("evidence");
         let _ = std::fs::create_dir_all(&dir);
         let _ = std::fs::write(dir.join(format!("{}.json", id)), serde_json::to_string_pretty(&ev).unwrap());
+        if opts.tier == Tier::Thorough {
+            // keep a copy of the deep run next to the per-change evidence
+            let tdir = dir.join("thorough");
+            let _ = std::fs::create_dir_all(&tdir);
+            let _ = std::fs::write(tdir.join(format!("{}.json", id)), serde_json::to_string_pretty(&ev).unwrap());
+        }
     }
     for k in &known {
         let n = stats.known_hits.get(&k.signature).copied().unwrap_or(0);
